@@ -59,7 +59,7 @@ def sridFromFirstList : List String :=
    "GEOSClipByRect_r", "GEOSConcaveHullByLength_r", "GEOSConcaveHullOfPolygons_r", "GEOSConcaveHull_r",
    "GEOSConvexHull_r", "GEOSCoverageUnion_r", "GEOSDelaunayTriangulation_r", "GEOSDensify_r",
    "GEOSDifferencePrec_r", "GEOSDifference_r", "GEOSDisjointSubsetUnion_r", "GEOSEnvelope_r",
-   "GEOSGeom_extractUniquePoints_r", "GEOSGeom_setPrecision_r", "GEOSGetCentroid_r",
+   "GEOSGeom_extractUniquePoints_r", "GEOSGetCentroid_r",
    "GEOSInterpolateNormalized_r", "GEOSInterpolate_r", "GEOSIntersectionPrec_r", "GEOSIntersection_r",
    "GEOSLargestEmptyCircle_r", "GEOSLineMergeDirected_r", "GEOSLineMerge_r", "GEOSLineSubstring_r",
    "GEOSMakeValidWithParams_r", "GEOSMakeValid_r", "GEOSMaximumInscribedCircle_r",
@@ -77,9 +77,11 @@ SRID really arrives is observed at run time by the `api-seq` stream for every co
 entries after the comment are the ones where it was observed *not* to arrive on the unchanged tree
 (findings, see `checks/C12.py`). -/
 def sridNotSyntactic : List String :=
-  ["GEOSGeom_clone_r", "GEOSGeomGetPointN_r", "GEOSGeomGetStartPoint_r", "GEOSGeomGetEndPoint_r",
-   "GEOSGeom_transformXY_r", "GEOSGeom_transformXYZ_r", "GEOSUnionCascaded_r",
-   "GEOSConstrainedDelaunayTriangulation_r", "GEOSCoverageSimplifyVW_r",
+  ["GEOSGeom_clone_r", "GEOSGeom_transformXY_r", "GEOSGeom_transformXYZ_r", "GEOSUnionCascaded_r", "GEOSCoverageSimplifyVW_r",
+   -- FINDINGS on the unchanged tree (the SRID was observed not to arrive, replays in the check's report):
+   "GEOSGeomGetPointN_r", "GEOSGeomGetStartPoint_r", "GEOSGeomGetEndPoint_r",   -- points built by the factory, SRID 0
+   "GEOSConstrainedDelaunayTriangulation_r",                                     -- result built without the SRID
+   "GEOSGeom_setPrecision_r",                                                    -- only the *factory* gets the SRID
    -- operations on arrays of geometries (no single "first argument")
    "GEOSPolygonize_r", "GEOSPolygonize_valid_r", "GEOSPolygonizer_getCutEdges_r"]
 
